@@ -367,4 +367,63 @@ def splitClosedB (decls : List Comp) (p : List Tr) (out : List CId) : Bool :=
   selfSupportingB r.missing r.kept R && r.missing.all (fun c => (defsOf r.rest).contains c) &&
     r.select.all (fun c => R.contains c)
 
+/-! ### extract_atomic as a whole -/
+
+/-- `AnchorContext::determine_select_columns`: the columns a pipeline ends with (argument: the pipeline REVERSED, last
+transform first) -/
+def determineSelectRev : List Tr → List CId
+  | [] => []
+  | .from cols :: _ => cols
+  | .join cols _ :: before => determineSelectRev before ++ cols
+  | .select cols :: _ => cols
+  | .aggregate partition compute :: _ => partition ++ compute
+  | _ :: before => determineSelectRev before
+
+def determineSelect (p : List Tr) : List CId := determineSelectRev p.reverse
+
+structure Extracted where
+  /-- the atomic pipeline that is compiled to one SELECT -/
+  atomic : List Tr
+  /-- the pipelines stashed as new relations (what `anchor_split` declares), innermost first -/
+  stashed : List (List Tr)
+  /-- the requested output columns as they are called in `atomic` (after the redirects) -/
+  output : List CId
+  next : CId
+  deriving Repr, Inhabited
+
+/-- the Select of an atomic pipeline (the first one, as `translate_select_pipeline` plucks it) -/
+def selectOf (p : List Tr) : Option (List CId) := p.findSome? fun t => match t with | .select cs => some cs | _ => none
+
+structure Stage1 where
+  atomic : List Tr
+  stashed : List (List Tr)
+  out1 : List CId
+  next1 : CId
+  deriving Repr, Inhabited
+
+/-- first half of `extract_atomic`: split off the last atomic part and anchor it -/
+def stage1 (decls : List Comp) (next : CId) (p : List Tr) (out : List CId) : Stage1 :=
+  let r := splitOffBack decls p out
+  if r.rest.isEmpty then { atomic := r.atomic, stashed := [], out1 := out, next1 := next }
+  else
+    { atomic := (anchorSplit next r.missing r.atomic).2, stashed := [r.rest ++ [.select r.missing]],
+      out1 := out.map (redirect (r.missing.zip (anchorSplit next r.missing r.atomic).1)),
+      next1 := next + r.missing.length }
+
+/-- second half: if the Select had to be widened by columns that other clauses need, wrap the pipeline into a limiting
+SELECT of exactly the requested columns -/
+def stage2 (s : Stage1) : Extracted :=
+  let selectCols := (selectOf s.atomic).getD []
+  if selectCols.any (fun c => !s.out1.contains c) then
+    { atomic := (anchorSplit s.next1 selectCols [.select s.out1]).2,
+      stashed := s.stashed ++ [s.atomic ++ [.select selectCols]],
+      output := s.out1.map (redirect (selectCols.zip (anchorSplit s.next1 selectCols [.select s.out1]).1)),
+      next := s.next1 + selectCols.length }
+  else { atomic := s.atomic, stashed := s.stashed, output := s.out1, next := s.next1 }
+
+/-- `extract_atomic` for the requested output columns `out` (= `determine_select_columns`, passed through the positional
+mapping when the pipeline is the bottom of a set operation) -/
+def extractAtomic (decls : List Comp) (next : CId) (p : List Tr) (out : List CId) : Extracted :=
+  stage2 (stage1 decls next p out)
+
 end Model.Anchor
